@@ -828,6 +828,57 @@ def train_violations(name, vname, flow, optname, loop, key, steps):
     return out, dict(moved_trainable=moved_train, n_frozen=sum(1 for _, f in before if f), n_train=sum(1 for _, f in before if not f))
 
 
+def weightnorm_batched_violations(seed):
+    """WeightNormalization over a BATCH of matrices (what vmapped construction / stacking wrappers produces): unwrapping the batch equals
+    stacking the unwraps of the slices, and every row of every slice has the norm given by its scale parameter"""
+    from flowjax.wrappers import WeightNormalization
+    out = []
+    r = np.random.RandomState(seed % (2 ** 31))
+    for shape in ((3, 4, 5), (2, 3, 2, 4), (1, 1, 3)):
+        w = jnp.asarray(r.standard_normal(shape))
+        wn = WeightNormalization(w)
+        wn = eqx.tree_at(lambda t: t.scale, wn, jax.tree_util.tree_map(lambda a: a + jnp.asarray(0.3 * r.standard_normal(a.shape)), wn.scale))
+        batched = np.asarray(unwrap(wn))
+        sc = np.asarray(unwrap(wn.scale))
+        flat_w, flat_s = np.asarray(w).reshape((-1,) + shape[-2:]), sc.reshape((-1,) + sc.shape[-2:])
+        per = np.stack([np.asarray(flat_s[i] * flat_w[i] / np.linalg.norm(flat_w[i], axis=-1, keepdims=True)) for i in range(flat_w.shape[0])]).reshape(shape)
+        if batched.shape != tuple(shape) or not np.allclose(batched, per, rtol=1e-10, atol=1e-12):
+            out.append(f"WeightNormalization(weight of shape {shape}): batched unwrap != stack of per-slice unwraps (max diff "
+                       f"{float(np.max(np.abs(batched - per))) if batched.shape == tuple(shape) else 'shape'})")
+        rows = np.linalg.norm(batched, axis=-1, keepdims=True)
+        if batched.shape == tuple(shape) and not np.allclose(rows, np.abs(sc), rtol=1e-9, atol=1e-12):
+            out.append(f"WeightNormalization(weight of shape {shape}): row norms differ from the scale parameter")
+    return out
+
+
+def vmap_frozen_violations(key, optname="adam", loop="data"):
+    """a bijection whose leaf was frozen BEFORE it was wrapped in Vmap(in_axes=...): the wrapper must survive construction, the leaf
+    must get no gradient and must be bit-identical after training (values taken from the unwrapped model, so a dropped wrapper shows)"""
+    out = []
+    aff = B.Affine(jnp.zeros(()), jnp.ones(()))
+    aff = eqx.tree_at(lambda a: a.loc, aff, jnp.asarray([0.3, -1.2, 2.0]))
+    in_axes = jax.tree_util.tree_map(lambda _: None, unwrap(aff))
+    in_axes = eqx.tree_at(lambda a: a.loc, in_axes, 0, is_leaf=lambda x: x is None)
+    inner = eqx.tree_at(lambda a: a.loc, aff, replace_fn=NonTrainable)
+    vm = B.Vmap(inner, in_axes=in_axes)
+    if not isinstance(vm.bijection.loc, NonTrainable):
+        out.append("Vmap(in_axes=...) dropped the NonTrainable wrapper of the wrapped bijection's loc at construction")
+    flow = D.Transformed(D.Normal(jnp.zeros(3)), vm)
+    loc0 = np.asarray(unwrap(flow).bijection.bijection.loc).copy()
+    x = jr.normal(key, (24, 3)) * 0.7 + 0.3
+    opt = OPTS[optname]()
+    if loop == "data":
+        new, _ = fit_to_data(key, flow, x, optimizer=opt, max_epochs=2, batch_size=8, val_prop=0.25, show_progress=False, return_best=False)
+    else:
+        new, _ = fit_to_variational_target(key, flow, ElboLoss(lambda z: -0.5 * jnp.sum((z - 0.5) ** 2), num_samples=8), steps=2, optimizer=opt,
+                                           show_progress=False, return_best=False)
+    loc1 = np.asarray(unwrap(new).bijection.bijection.loc)
+    if loc1.tobytes() != loc0.tobytes():
+        out.append(f"leaf frozen before Vmap(in_axes=...) moved in training ({optname}, {loop}): {loc0.tolist()} -> {loc1.tolist()}")
+    sc0, sc1 = np.asarray(unwrap(flow).bijection.bijection.scale), np.asarray(unwrap(new).bijection.bijection.scale)
+    return out, dict(trainable_moved=bool(sc0.tobytes() != sc1.tobytes()))
+
+
 def grad_violations(flow, key):
     """(1) frozen leaves are not in the params half that the loops differentiate; the gradient tree has None there;
     (2) jax.grad of log_prob through `unwrap` w.r.t. the raw array under a NonTrainable is exactly zero."""
@@ -1100,6 +1151,23 @@ def corr(c, tier, rng):
             c.mismatch("harness-exception", desc=f"train:{name}:{vname}:{optname}:{loop}", exc=repr(ex)[:300])
         c.count(f"train:{loop}:{optname}")
 
+    sd = rng.randrange(2 ** 30)
+    for v in weightnorm_batched_violations(sd):
+        c.mismatch("unwrap-batched-weightnorm-vs-slices", seed=sd, detail=v)
+    c.case(("weightnorm-batched", sd), True)
+    c.count("weightnorm-batched")
+    # a leaf frozen before the bijection is wrapped in Vmap(in_axes=...) (Model/Tree: wrappers are nodes of the tree the constructor stores)
+    for optname, loop in ((("adam", "data"),) if quick else (("adam", "data"), ("sgd-momentum", "vi"), ("adamw-decay", "data"))):
+        key, sub = jr.split(key)
+        try:
+            viol, info = vmap_frozen_violations(sub, optname, loop)
+            for v in viol:
+                c.mismatch("training-moves-frozen", desc=f"vmap-frozen-inner:{optname}:{loop}", detail=v)
+            c.case(("vmap-frozen-inner", optname, loop), info.get("trainable_moved", False))
+        except Exception as ex:
+            c.mismatch("harness-exception", desc=f"train:vmap-frozen-inner:{optname}:{loop}", exc=repr(ex)[:300])
+        c.count("train:vmap-frozen-inner")
+
     # D. methods give the same result whether or not the caller unwrapped first; guard table
     key, k3, k4 = jr.split(key, 3)
     try:
@@ -1218,6 +1286,14 @@ def search(hints, tier, rng):
         v, _ = guard_table_violations()
         if v and add("guard-table|" + v[0], kind="guard", violations=v):
             return wit
+        sd = rng.randrange(2 ** 30)
+        v = weightnorm_batched_violations(sd)
+        if v and add(f"weightnorm-batched|{v[0][:60]}", kind="weightnorm_batched", seed=sd, violations=v):
+            return wit
+        for optname, loop in (("adam", "data"), ("sgd-momentum", "vi")):
+            v, _ = vmap_frozen_violations(jr.PRNGKey(3), optname, loop)
+            if v and add(f"vmap-frozen|{optname}|{loop}", kind="vmap_frozen", opt=optname, loop=loop, violations=v):
+                return wit
         flows = small_flows(random.Random(1), key)
         j = 0
         for name, flow in flows:
@@ -1264,6 +1340,10 @@ def _replay(w):
         return where_under_vmap_violation()
     if k == "exception":
         return bool(search({}, "quick", random.Random(0)))
+    if k == "weightnorm_batched":
+        return bool(weightnorm_batched_violations(w["seed"]))
+    if k == "vmap_frozen":
+        return bool(vmap_frozen_violations(jr.PRNGKey(3), w["opt"], w["loop"])[0])
     if k == "tree":
         return bool(tree_oracle(w["seed"], w["depth"]))
     if k == "vmapped":
